@@ -81,6 +81,8 @@ func Catalogue(which string) []pairSpec {
 		{a: "user@example.com", b: "user@example.co"},
 		{a: "a b", b: "a"}, {a: "a%2Fb", b: "a"}, {a: "a", b: "a%2F"},
 		{a: "a\\b", b: "a"}, {a: "a:b", b: "a"},
+		// ids that a "safe file name" mapping would fold together
+		{a: "team:alpha", b: "team_alpha"}, {a: "a b", b: "a_b"}, {a: "x+y", b: "x_y"}, {a: "k\\m", b: "k_m"}, {a: "Kim@Example.com", b: "kim@example.com"},
 		{a: "...", b: "abc"}, {a: "abc", b: ".abc"}, {a: "abc.", b: "abc"},
 		{a: "0", b: "00"}, {a: "userCollections", b: "u"},
 		{a: "8f14e45f-ceea-467f-a0e6-1d2f3b5c7a90", b: "8f14e45f-ceea-467f-a0e6-1d2f3b5c7a9"},
